@@ -113,4 +113,9 @@ PLAN = {
         "rule": RULE_TRACE + "; sinh/cosh/tanh against enclosures of exp; asinh/acosh/atanh by monotone inversion through exp(r +- tolerance); (x, -x) pairs at every magnitude",
         "traces": [T("hyp", (50, 1500), (14, 14))],
     },
+    "C20": {
+        "level": "model_checking",
+        "rule": RULE_TRACE + "; fmt = 3 traits x {plain, +} x {no precision, p in 0,1,5,17,40} on values with negative-zero / subnormal low words and extreme exponents, output tokenised by the specification; serde = every well-formed and malformed shape (sequence / map in both field orders, missing, duplicate, unknown field, short sequence) x arbitrary (hi, lo) words incl. overlapping and non-finite ones, through serde's value deserializers and serde_json",
+        "traces": [T("fmt", (150, 4000), (6, 14)), T("serde", (200, 5000), (8, 14), "serde")],
+    },
 }
